@@ -37,9 +37,10 @@ var props = map[string]propSpec{
 	}},
 	"C07": {Level: "fault_enumeration", Harnesses: []harnessSpec{
 		{Name: "agentw", Quick: 90, Thorough: 1200, Args: []string{"-prop", "C07"}},
+		{Name: "shim", Quick: 120, Thorough: 2400, Args: []string{"-prop", "C07"}},
 	}, Assume: []string{
 		"one fault per run out of 17 kinds (pending list, fetch, backend connect/headers/body, upload) at three positions within a stream of healthy requests plus a probe request afterwards; schedules delay-bounded (bound 1)",
-		"websocket-shim input faults are enumerated by the C12 check (harness shim), which also applies the no-crash oracle",
+		"malformed websocket-shim input and shim call orders: the shim harness (all call sequences of depth 4/5 with malformed, unknown and closed arguments, and concurrent call pairs) reported under this property as well",
 	}},
 	"C08": {Level: "model_checking", Harnesses: []harnessSpec{
 		{Name: "agentw", Quick: 60, Thorough: 300, Args: []string{"-prop", "C08"}},
@@ -64,5 +65,17 @@ var props = map[string]propSpec{
 	}, Assume: []string{
 		"the real gorilla dialler computes the address to connect to; only its NetDialContext is replaced (records the address, refuses the connection)",
 		"open-request bodies: every string of length <= 6 (quick) / 7 (thorough) over the alphabet a:/?#@[]%.1\\ plus a structured grammar of 23k URLs and a hand list (64 KiB, control bytes); backend host with and without port",
+	}},
+	"C11": {Level: "model_checking", Harnesses: []harnessSpec{
+		{Name: "shim", Quick: 120, Thorough: 1500, Args: []string{"-prop", "C11"}},
+	}, Assume: []string{
+		"the backend websocket peer is the in-memory rendering of gorilla/websocket's observable contract (package vws); one data post and one poll outstanding at a time, as the injected browser shim does",
+		"message alphabet: empty/ASCII/multi-byte text, JSON objects with and without resource.headers, JSON array, HTML-escaped characters, empty/short/all-256-values binary (thorough: 1 MiB text and binary); all sequences up to length 2 (quick: a third of the pairs) / 3, every batching into data posts, polls at every position, runs of 11/12/25 messages through the 10-slot queues",
+	}},
+	"C12": {Level: "model_checking", Harnesses: []harnessSpec{
+		{Name: "shim", Quick: 120, Thorough: 2400, Args: []string{"-prop", "C12"}},
+	}, Assume: []string{
+		"call sequences: every sequence of depth 4 (quick) / 5 (thorough) over 16 operations {open, data/poll/close with valid, unknown, malformed arguments, backend-send, backend-close}, each run to quiescence on the virtual clock, against a reference model of the session table",
+		"concurrency: 10 pairs (thorough: + 4 triples) of calls on one session from 5 prelude states, all interleavings up to the preemption bound",
 	}},
 }
